@@ -506,6 +506,9 @@ func (a *snapRun) run() {
 			if int64(a.sinceSnap) < p.K("threshold") {
 				break // fewer successful write commands than the threshold since the last snapshot: nothing is due
 			}
+			if n := len(a.good); n > 0 && a.doneSeen == before && mapsEqual(StripExpired(a.inst.DB.VerifDump(), nowMs(), false), stripExpiredMap(a.good[n-1].data, nowMs())) {
+				break // the writes left the dataset as the last snapshot holds it: "nothing new to snapshot" is a legitimate outcome
+			}
 			if a.doneSeen == before {
 				what := "no-auto-snapshot"
 				if len(a.faultLog) > 0 {
@@ -648,4 +651,18 @@ func (a *snapRun) pinAlt(r Result) {
 			return
 		}
 	}
+}
+
+// stripExpiredMap removes the entries of a flattened dataset whose deadline is <= nowMs.
+func stripExpiredMap(m map[string]string, now int64) map[string]string {
+	out := map[string]string{}
+	for k, v := range m {
+		if i := strings.LastIndex(v, " @"); i >= 0 {
+			if ms, err := strconv.ParseInt(v[i+2:], 10, 64); err == nil && ms <= now {
+				continue
+			}
+		}
+		out[k] = v
+	}
+	return out
 }
